@@ -288,6 +288,9 @@ func runC18(c *Ctx) {
 	c.Rule("C18-D11", "every occurrence reaches its handlers — the creation of a namespace by a client too (F47): at every call of nspStore.getOrCreate the `created` result leads to the NewNamespace handlers", 2)
 	newNamespaceHandlersRun(c, "C18-D11")
 
+	c.Rule("C18-D12", "Off removes what it names (F61, known finding): handler identity is not decided by reflect.Value.Pointer() — the code pointer, shared by every closure of one literal", 1)
+	handlerIdentityNotByCodePointer(c, "C18-D12")
+
 	// ---------------------------------------------------------------- D9
 	c.Rule("C18-D9", "the handler set of an occurrence is fixed at the occurrence: every call of eventHandlerStore.getAll / handlerStore.getAll is made on the delivering goroutine, not inside a function literal that "+
 		"is started with `go` — taken later, the set misses a handler that was registered at the occurrence and removed before the goroutine ran, and includes (and consumes) a Once handler registered after it", 3)
